@@ -81,3 +81,4 @@ pub mod c18;
 pub mod c19;
 pub mod c06;
 pub mod c34;
+pub mod c31;
